@@ -92,12 +92,35 @@ fn coerce_to_bool(value: &Value) -> TokenStream {
   }
 }
 
+/// A JSON number written with a zero fraction (`10.0`) is the integer `10`; serde_json keeps it as a float.
+fn integral_float(n: &serde_json::Number) -> Option<f64> {
+  n.as_f64().filter(|f| f.is_finite() && f.fract() == 0.0)
+}
+
+#[allow(clippy::cast_possible_truncation, clippy::cast_precision_loss)]
+fn number_as_i64(n: &serde_json::Number) -> Option<i64> {
+  n.as_i64().or_else(|| {
+    integral_float(n)
+      .filter(|f| *f >= i64::MIN as f64 && *f < i64::MAX as f64)
+      .map(|f| f as i64)
+  })
+}
+
+#[allow(clippy::cast_possible_truncation, clippy::cast_precision_loss, clippy::cast_sign_loss)]
+fn number_as_u64(n: &serde_json::Number) -> Option<u64> {
+  n.as_u64().or_else(|| {
+    integral_float(n)
+      .filter(|f| *f >= 0.0 && *f < u64::MAX as f64)
+      .map(|f| f as u64)
+  })
+}
+
 fn coerce_to_int(value: &Value, rust_type: &RustPrimitive) -> TokenStream {
   let type_suffix = rust_type.to_string();
   let to_literal = |i| typed_literal(i, &type_suffix);
 
   match value {
-    Value::Number(n) => n.as_i64().map_or_else(|| quote! { Default::default() }, to_literal),
+    Value::Number(n) => number_as_i64(n).map_or_else(|| quote! { Default::default() }, to_literal),
     Value::String(s) => s
       .parse::<i64>()
       .ok()
@@ -111,7 +134,7 @@ fn coerce_to_uint(value: &Value, rust_type: &RustPrimitive) -> TokenStream {
   let to_literal = |u| typed_literal(u, &type_suffix);
 
   match value {
-    Value::Number(n) => n.as_u64().map_or_else(|| quote! { Default::default() }, to_literal),
+    Value::Number(n) => number_as_u64(n).map_or_else(|| quote! { Default::default() }, to_literal),
     Value::String(s) => s
       .parse::<u64>()
       .ok()
